@@ -672,6 +672,7 @@ func main() {
 		os.Exit(2)
 	}
 	os.MkdirAll(*out, 0o755)
+	logrus.SetOutput(io.Discard)
 	header := "From Coq Require Import String List NArith ZArith Uint63.\nFrom FFS Require Import Base.Bytes Base.Lit Eip712.RunC14.\nImport ListNotations.\nOpen Scope string_scope. Open Scope N_scope."
 	st := cv.NewStats()
 	st.Rule = "distinct documents (by SHA-256 of the bytes) that the JSON lexer accepts and whose top level is a non-empty object, plus distinct numeric single-member documents"
@@ -696,6 +697,26 @@ func main() {
 			os.Exit(0)
 		}
 		doc, _ := hex.DecodeString(hx)
+		if k, _ := rp.Case["kind"].(string); k == "num" {
+			// a numeric case: re-run it with its oracle (type, text, the integer the text denotes)
+			var t intType
+			tn, _ := rp.Case["type"].(string)
+			t.signed = strings.HasPrefix(tn, "int")
+			fmt.Sscanf(strings.TrimPrefix(strings.TrimPrefix(tn, "u"), "int"), "%d", &t.bits)
+			text, _ := rp.Case["text"].(string)
+			isNum, _ := rp.Case["is_json_number"].(bool)
+			canon, _ := rp.Case["canonical"].(bool)
+			var den *big.Int
+			if ds, _ := rp.Case["denotes"].(string); ds != "" {
+				den, _ = new(big.Int).SetString(ds, 10)
+			}
+			c, dig := h.addNum(t, isNum, text, den, canon, "replay")
+			h.w.Flush()
+			fmt.Println("document:", short(doc))
+			fmt.Printf("implementation: class=%d digest=%x (text denotes %v, type %s)\n", c, dig, den, tn)
+			st.Write(filepath.Join(*out, "stats_C14.json"))
+			return
+		}
 		r := h.addDoc(doc, "replay")
 		h.w.Flush()
 		fmt.Println("document:", short(doc))
@@ -705,7 +726,6 @@ func main() {
 	}
 
 	thorough := *tier == "thorough"
-	logrus.SetOutput(io.Discard)
 	r := cv.NewRand(14)
 
 	h.fixedCorpus()
@@ -716,7 +736,7 @@ func main() {
 	h.addDoc([]byte(kitchenDoc().text()), "valid/kitchen")
 	ms, ks := 6, 30
 	if thorough {
-		ms, ks = 1, 2
+		ms, ks = 1, 3
 	}
 	h.mutateAll(mailDoc(), "mail", r, ms)
 	h.mutateAll(kitchenDoc(), "kitchen", r, ks)
@@ -724,7 +744,7 @@ func main() {
 	// random type graphs, each mutated at sampled positions
 	nRandom := 60
 	if thorough {
-		nRandom = 1500
+		nRandom = 900
 	}
 	for i := 0; i < nRandom; i++ {
 		d := randomDoc(r)
@@ -737,7 +757,7 @@ func main() {
 	// arbitrary JSON
 	nLoose := 200
 	if thorough {
-		nLoose = 5000
+		nLoose = 3000
 	}
 	for i := 0; i < nLoose; i++ {
 		h.addDoc([]byte(looseDoc(r).text()), "arbitrary/typed-data-shaped")
